@@ -88,6 +88,60 @@ CHECKS = {
         "note": _BASE_NOTE + "Helper functions (gn_data_forward_gbc, gn_area_cbf_forwarding) are analysed with the facts of all "
                 "their in-source call sites (intersection).",
     },
+    "C07": {
+        "technique": "static analysis: guard facts on delivery/emission sinks, formula identity by polynomial normal form, "
+                     "decision-table path conditions",
+        "text": "Decides: every GNDataIndication of the GBC/GAC receivers is guarded by F >= 0 with F = geometric function of "
+                "(the packet's shape sub-type, the area built field-by-field from the decoded header, the ego position), GAC "
+                "forwards only under F < 0; the circle/rectangle/ellipse branches of gn_geometric_function_f and the three area "
+                "size formulas are algebraically identical to EN 302 931 / Annex B.3 (polynomial normal form, min/max canonical) "
+                "and use the azimuth; the size guard `area <= itsGnMaxGeoAreaSize km^2` dominates every origination and forward "
+                "and over-size requests get GEOGRAPHICAL_SCOPE_TOO_LARGE; the Annex D selection returns AREA iff F(ego) >= 0, "
+                "DISCARD only for outside ego + accurate inside sender, and no packet is emitted unless the outcome is AREA or "
+                "NON-AREA. Does NOT decide the numerical accuracy of the distance projection.",
+        "note": _BASE_NOTE + "EN 302 931 shape formulas embedded in rules/c07.py.",
+    },
+    "C08": {
+        "technique": "static analysis: guard facts on stores, exact truth table by interpreting the comparison methods' syntax "
+                     "trees on the cells of d = a - b, structural rules on the expiry predicate",
+        "text": "Decides: every store to a LocTE position vector is guarded by strict `new.tst > stored.tst` (or never-filled); "
+                "TST's >,>=,<,<=,== form the wrap-around serial order on all 11 region representatives of d = a - b (exact: the "
+                "methods only compare against 0 and 2^31, which is checked) - irreflexive, antisymmetric, consistent; "
+                "is_neighbour becomes True only from beacon/SHB processing and False only for newly created entries; every table "
+                "update is dominated by DAD; the expiry predicate ages by the entry's PV timestamp against a millisecond clock with "
+                "a `timestamp ahead of clock` alternative, refresh_table filters by it and both readers apply it. Does NOT decide "
+                "table contents over histories with clock advances.",
+        "note": _BASE_NOTE + "The TST methods are interpreted by flexlint's own expression/statement interpreter on chosen "
+                "integers (the repository code is not executed).",
+    },
+    "C19": {
+        "technique": "static analysis: literal-table rules, guard/bounds rules, formula identity (polynomial normal form) of the "
+                     "LIMERIC and gate equations",
+        "text": "Decides: Annex A tables are internally consistent (bands contiguous from 0 to above 1 in state order, rate x T_off "
+                "= 1000, rates monotone); the reactive machine stores one state per evaluation, moves by -1/0/+1 towards the "
+                "target and outputs the row of the state just stored; CBR inputs are range-checked before any state change; the "
+                "adaptive update implements equations 1-5 of clause 5.4 as formula identities incl. both clamps, and every "
+                "return follows the stores; the gate keeper schedules t_go = t + clamp(t_on/delta) (B.1) and t_pg + clamp(delta_old/"
+                "delta_new * (t_go - t_pg)) (B.2) with clamps [25 ms, 1 s], admits only when open and after storing both times, "
+                "rescales only while closed, rejects non-positive t_on/delta. Does NOT decide convergence within four "
+                "evaluations nor float rounding.",
+        "note": _BASE_NOTE + "No Annex A numbers are embedded (internal agreement only); equations from TS 102 687 clause 5.4 / "
+                "Annex B are embedded as expression templates.",
+    },
+    "C20": {
+        "technique": "static analysis: exact finite-partition interpretation of the lifetime quantiser against the 256 "
+                     "representable values, provenance and guard rules on hop/lifetime fields",
+        "text": "Decides: for every requested lifetime 0..7 000 000 ms (exhaustive over the partition induced by the constants the "
+                "function uses and the representable values) the encoded lifetime never exceeds the request, is non-zero from 50 ms, "
+                "is the largest representable value and keeps the multiplier in 6 bits; reader units = clause 9.6.4; LT of an "
+                "originated packet derives from the request (s->ms) or the MIB default, indications report the received header's "
+                "LT (floor) and RHL; RHL/MHL: single-hop and beacons 1/1, multi-hop both from `requested if > 1 else MIB default`; "
+                "the header put on the wire is the initialised one (only NH re-stamped); copy methods of BasicHeader forward all "
+                "other fields; every receive handler is reached only under RHL <= MHL. Bit positions: C02.",
+        "note": _BASE_NOTE + "The quantiser is interpreted by flexlint's own interpreter on the end points of each partition "
+                "cell; exactness of the partition is derived from the comparison/division constants found in the function "
+                "(shape outside the understood forms => ANALYSIS-ERROR).",
+    },
 }
 
 NOT_APPLICABLE = {}
